@@ -28,7 +28,7 @@ Needs2P(shs) == \E j \in 1..Len(shs) : ShapePeriodics(shs[j]) > 1
 Descs == { [width |-> Len(shs), log_len |-> LogLen, shapes |-> shs,
             pcyc |-> IF Needs2P(shs) THEN <<4, 2>> ELSE IF NeedsP(shs) THEN <<4>> ELSE <<>>,
             init |-> [j \in 1..Len(shs) |-> IF shs[j] = "pcol" THEN PerValue(0, 4, 3) ELSE j + 1],
-            exemptions |-> e, asserts |-> as, aux |-> ax, meta |-> <<>>]
+            exemptions |-> e, asserts |-> as, aux |-> ax, meta |-> <<>>, extra |-> <<>>]
           : shs \in ShapeSets, e \in Exemptions, as \in AssertSets, ax \in AuxChoices }
 
 WellFormed(x) ==
@@ -44,7 +44,8 @@ Corruptions(x) ==
   \cup {[kind |-> "row", col |-> 0, row |-> r, delta |-> dl, idx |-> 0] : r \in 0..(L - 1), dl \in Deltas}
   \cup {[kind |-> "col", col |-> c, row |-> 0, delta |-> dl, idx |-> 0] : c \in 0..(x.width - 1), dl \in Deltas}
   \cup (IF x.aux = <<>> THEN {}
-        ELSE {[kind |-> "aux", col |-> m, row |-> r, delta |-> 1, idx |-> 0] : m \in 0..(x.aux[1].width - 1), r \in 0..(L - 1)})
+        ELSE {[kind |-> "aux", col |-> m, row |-> r, delta |-> 1, idx |-> 0] : m \in 0..(x.aux[1].width - 1), r \in 0..(L - 1)}
+             \cup {[kind |-> "auxscale", col |-> m, row |-> 0, delta |-> 2, idx |-> 0] : m \in 0..(x.aux[1].width - 1)})
 
 Init == /\ d \in {x \in Descs : WellFormed(x)}
         /\ k = NoCorr
@@ -66,6 +67,9 @@ AuxOk ==
            ar2 == IF k.kind = "aux"
                     THEN [i \in 1..Len(ar) |-> [m \in 1..d.aux[1].width |->
                              IF i = k.row + 1 /\ m = k.col + 1 THEN FAdd(P, ar[i][m], 1) ELSE ar[i][m]]]
+                    ELSE IF k.kind = "auxscale"
+                    THEN [i \in 1..Len(ar) |-> [m \in 1..d.aux[1].width |->
+                             IF m = k.col + 1 THEN FMul(P, ar[i][m], 2) ELSE ar[i][m]]]
                     ELSE ar
        IN ValidAux(P, d, CRows, ar2, Rands)
 Valid == ValidMain(P, d, CRows, Vals) /\ AuxOk
